@@ -1,4 +1,5 @@
 """C07 - every timeframe is the exact aggregation of the one-minute candles."""
+import ast
 import json
 import os
 from fractions import Fraction
@@ -147,6 +148,25 @@ def t_step_two_symbols(tf):
         out = h.outcome(f'{BM}._step_simulator', S.candles, True)
         h.prove(out.ok, 'step.2sym.no-exception', {'raised': out.exc})
     return t
+
+
+def t_strategy_reads(h):
+    """mechanical: the engine treats decorators as transparent (A-5), so the members of Strategy through which a strategy reads
+    candles, prices and its position must not be wrapped by anything but @property / @staticmethod / @abstractmethod: a memoising
+    decorator (services.cache.cached, functools.lru_cache) would hand out the forming candle of an earlier read"""
+    c = h.repo.find('jesse.strategies.Strategy.Strategy')
+    bad = []
+    for st in c.node.body:
+        if isinstance(st, ast.FunctionDef):
+            for d in st.decorator_list:
+                name = ast.unparse(d)
+                if name.split('.')[-1].split('(')[0] not in ('property', 'staticmethod', 'abstractmethod', 'classmethod', 'setter'):
+                    bad.append(f'{st.name}: @{name}')
+    h.prove(bad == [], 'strategy-reads.no-accessor-of-the-strategy-is-memoised', {'decorated': bad})
+    f = h.repo.find('jesse.strategies.Strategy.Strategy.candles')
+    src = ast.unparse(f.node)
+    h.prove('store.candles.get_candles(' in src and 'self.exchange' in src and 'self.symbol' in src and 'self.timeframe' in src,
+            'strategy-reads.candles-is-the-store-getter-for-the-trading-route')
 
 
 def t_fast(tf, step):
@@ -445,6 +465,7 @@ def tasks(tier):
         # the whole finite domain: 2^17 - 1 subsets, concrete evaluation of the real function (complete, not bounded)
         ts.append(Task('min-step.all-subsets', t_min_step('all'), overrides=dict(ov), extra=dict(x, task_timeout_s=3600)))
     ts.append(Task('step.2sym.5m', t_step_two_symbols('5m'), extra=dict(x), overrides=dict(ov), invariants={}))
+    ts.append(Task('strategy-reads', t_strategy_reads, extra=dict(x)))
     ts.append(Task('fixed-jump', t_fixed_jump, extra=dict(x), overrides=dict(ov)))
     # the 1m candle stored by the match loop is the whole minute (not what a fill left over): shared with C02
     import props.C02 as P2
